@@ -118,7 +118,8 @@ pub fn run(ctx: &Ctx) -> ! {
             let b = replay(&scratch, &fixture, &base, Tail::Never);
             differential(&h, &b.published, &base, &mut rep).result
         } else {
-            replay(&scratch, &fixture, &h, Tail::Always).result
+            let mode = crate::world::Stakes::from_label(v["world"].as_str());
+            crate::sys::replay_in(&scratch, &fixture, &h, Tail::Always, mode).result
         };
         eprintln!("replayed {} events: outcome {}", h.len(), r.outcome);
         if let Some(v) = r.violations.first().or(rep.violations.first()) {
@@ -257,6 +258,89 @@ pub fn run(ctx: &Ctx) -> ! {
         );
     }
 
+    // (d) aggregator-ahead windows. At an epoch boundary of the nominal schedule the `Epoch` event is
+    // replaced by `[pre] AggAhead, X, NodeCatchUp`: the aggregator enters the new epoch first, X happens
+    // while the signer's node is still in the old one, then the node catches up and the rest of the
+    // schedule runs. pre is nothing or a new immutable file (a beacon of the old epoch not yet signed);
+    // X ranges over all sequences up to length 5 of a small alphabet (restarts, cycles, chain progress,
+    // ...). Run in the world in which the stake of the pool under test does not change, where a node
+    // holding the key of the neighbouring epoch is able to sign with it. Usual oracle and tail.
+    {
+        use Ev::*;
+        let mode = crate::world::Stakes::OwnConstant;
+        let nomw = nominal(ctx.tier.pick(4, 5), 0);
+        let boundaries: Vec<usize> = nomw.iter().enumerate().filter(|(_, e)| **e == Epoch).map(|x| x.0).collect();
+        let syms: Vec<Vec<Ev>> = vec![vec![Tick], vec![Restart], vec![Immutable], vec![Blocks], vec![PublishFails], vec![AggDown, Tick, AggUp]];
+        // (boundaries, number of symbols used, admissible sequence of symbol indices)
+        type Filter = fn(&[usize]) -> bool;
+        let at_most_one_each: Filter = |x| (1..6).all(|s| x.iter().filter(|y| **y == s).count() <= 1);
+        let at_most_two_special: Filter = |x| (1..6).all(|s| x.iter().filter(|y| **y == s).count() <= 1) && x.iter().filter(|y| **y != 0).count() <= 2;
+        let any: Filter = |_| true;
+        let families: Vec<(Vec<usize>, usize, Filter, &str)> = if quick {
+            // boundary 3 -> 4; at most one restart and at most one new immutable file inside the window
+            vec![(vec![boundaries[2]], 3, at_most_one_each, "len<=5 over {Tick,Restart,Immutable}, each of Restart/Immutable at most once")]
+        } else {
+            vec![
+                (vec![boundaries[2], boundaries[3]], 3, any, "all sequences len<=5 over {Tick,Restart,Immutable}"),
+                (boundaries.clone(), 6, at_most_two_special, "len<=5 over {Tick,Restart,Immutable,Blocks,PublishFails,[AggDown,Tick,AggUp]}, at most two non-Tick symbols, each at most once"),
+            ]
+        };
+        let mut seen = HashSet::new();
+        let mut jobs: Vec<Vec<Ev>> = vec![];
+        let mut fam_extra = vec![];
+        for (bs, nsym, filter, what) in &families {
+            let xs: Vec<Vec<usize>> = mc_core::sequences(*nsym, 5).into_iter().filter(|x| filter(x)).collect();
+            let before = jobs.len();
+            for b in bs {
+                for pre in [vec![], vec![Immutable]] {
+                    for x in &xs {
+                        let mut h = nomw[..*b].to_vec();
+                        h.extend(pre.iter().copied());
+                        h.push(AggAhead);
+                        for s in x {
+                            h.extend(syms[*s].iter().copied());
+                        }
+                        h.push(NodeCatchUp);
+                        h.extend(nomw[*b + 1..].iter().copied());
+                        if seen.insert(serde_json::to_string(&h).unwrap()) {
+                            jobs.push(h);
+                        }
+                    }
+                }
+            }
+            fam_extra.push(json!({"boundaries_at_events": bs, "window_contents": what, "sequences": xs.len(), "pre": ["", "Immutable"], "new_histories": jobs.len() - before}));
+        }
+        let t_part = std::time::Instant::now();
+        let res = mc_core::par_map(&jobs, ctx.threads(), |_, h| {
+            let o = crate::sys::replay_in(&scratch, &fixture, h, Tail::OncePerState(&claimed), mode);
+            add_stats(&o);
+            o.result
+        });
+        let mut wstates = HashSet::new();
+        for (h, r) in jobs.iter().zip(res) {
+            rep.eval();
+            rep.outcome(&format!("window:{}", r.outcome));
+            if r.nontrivial {
+                rep.nontrivial(&r.canon);
+            }
+            if wstates.insert(r.canon.clone()) && wstates.len() % 97 == 1 {
+                rep.max_samples = 8;
+                rep.sample(json!({"history": h, "outcome": r.outcome, "world": mode.label()}));
+            }
+            for v in r.violations {
+                rep.push_violation(v);
+            }
+        }
+        eprintln!("[C20] aggregator-ahead windows: {} histories, {} states, {:.1}s", jobs.len(), wstates.len(), t_part.elapsed().as_secs_f64());
+        rep.states = Some(rep.states.unwrap_or(0) + wstates.len() as u64);
+        rep.transitions = Some(rep.transitions.unwrap_or(0) + jobs.len() as u64);
+        rep.traces_validated = Some(rep.traces_validated.unwrap_or(0) + jobs.len() as u64);
+        rep.extra(
+            "aggregator_ahead_windows",
+            json!({"world": mode.label(), "nominal_epochs": ctx.tier.pick(4, 5), "families": fam_extra, "histories": jobs.len(), "states": wstates.len()}),
+        );
+    }
+
     // (c) differential against the uninterrupted run. A restart costs the signer at most two cycles
     // (Init -> Unregistered -> registered), a lost acknowledgement one cycle (the beacon is published
     // again). So on the nominal schedule with two spare cycles per injected fault after every group of
@@ -386,6 +470,7 @@ pub fn run(ctx: &Ctx) -> ! {
     rep.assume("the Cardano node (chain observer, immutable file observer, block scanner, immutable digester) is replaced by the repository's own test doubles; the aggregator by the harness reference aggregator called in process (no HTTP, no message adapters)");
     rep.assume("reference rule: keys registered during epoch e, the stake distribution the chain showed during e and the parameters handed out during e are in force in e+2; a repeated registration in the same epoch replaces the earlier one");
     rep.assume("the aggregator's clock is the signer's node epoch plus a skew of 0 or 1 (AggAhead / NodeCatchUp); a publication is judged by the epoch of the signed entity; while its node is behind an honest signer may be unable to register or sign - only wrong publications count then, liveness only after the node has caught up and faults are cleared");
+    rep.assume("two worlds: every pool's stake changes each epoch (all parts but the aggregator-ahead windows), or the stake of the pool under test is constant and only the others' change (the windows); protocol parameters change every epoch in both");
     rep.assume("events are atomic with respect to a state-machine cycle: no fault or chain event happens in the middle of a cycle");
     rep.assume("the node draws its keys from the OS random generator: signatures differ between runs, canonical states record only which keys exist and whether signer and aggregator agree on them; the signer under test holds ~3/4 of the stake and the reference parameters are m>=30, phi_f>=0.8, so it wins at least one lottery except with probability < 1e-15 per signature");
     rep.assume("only acknowledged publications count for 'at most once'; a further publication after an unacknowledged one is legitimate");
